@@ -65,6 +65,10 @@ def fe(p, /, q=7):
   return _rec("fe", locals())
 
 
+def fh(r, s=8, /, t=9):
+  return _rec("fh", locals())
+
+
 def fg(u, v=1, *, w=2):
   return _rec("fg", locals())
 
@@ -124,7 +128,7 @@ class TagA2(TagA1):
   """subsubtag"""
 
 
-CALLABLES = [fa, fb, fc, fd, fe, fg, Ka, Kb, Kc, Dc]
+CALLABLES = [fa, fb, fc, fd, fe, fg, fh, Ka, Kb, Kc, Dc]
 TAGS = [TagA, TagB, TagA1, TagA2]
 for _c in CALLABLES + [NT, Color] + TAGS:
   _c.__module__ = "harness.l2"
